@@ -239,6 +239,7 @@ def column_store(cur, idx, v):
 
 
 FRAME_DEP = ("frame", "rotated")
+PLANE_OFFSET_DROPPED = ("plane-offset", "dropped")
 
 
 def rot_frame(left, right, deps, tags):
@@ -247,6 +248,10 @@ def rot_frame(left, right, deps, tags):
     rotated value, which brings it back (FRAME-3)."""
     lo = left is not None and "orth" in left.tags
     ro = right is not None and "orth" in right.tags
+    if not lo and not ro and right is not None and "orth-rows2" in right.tags and left is not None and FRAME_DEP in left.deps:
+        # v2 @ R[:2]: the in-plane coordinates of a plane-frame point taken back to the world frame; the coordinate along the
+        # normal (the distance of the plane from the origin) is not restored by this product
+        return (deps - {FRAME_DEP}) | {PLANE_OFFSET_DROPPED}, tags
     if lo == ro:
         return deps, tags
     mat, vec = (left, right) if lo else (right, left)
@@ -345,7 +350,15 @@ def value_attr(interp, base, attr, st, node):
         return out
     if attr in ("shape",):
         co = count_origin(base) | frozenset(t_ for t_ in base.tags if isinstance(t_, tuple) and t_ and t_[0] == "ret")
-        return Val(kind="tuple", dim=D0, elem=Val(kind="int", dim=D0, deps=base.deps, pdeps=base.pdeps, tags=co),
+        el_ = Val(kind="int", dim=D0, deps=base.deps, pdeps=base.pdeps, tags=co)
+        items_ = None
+        sl_ = shape_last(base)
+        if sl_ and sl_[1] == 2:
+            # (rows, k) with a statically known number of columns: `n, d = x.shape` binds d to that constant
+            items_ = (el_.copy(extra=("len", base), born=interp.time), Val(kind="int", dim=D0, const=sl_[0], born=interp.time))
+        elif sl_ and sl_[1] == 1:
+            items_ = (Val(kind="int", dim=D0, const=sl_[0], born=interp.time),)
+        return Val(kind="tuple", dim=D0, elem=el_, items=items_,
                    deps=base.deps, pdeps=base.pdeps, born=interp.time, tags=co, extra=("shape", base))
     if attr in ("size", "ndim"):
         return Val(kind="int", dim=D0, born=interp.time, tags=count_origin(base) if attr == "size" else frozenset())
@@ -444,6 +457,12 @@ def call_method(interp, base, name, node, args, kwargs, st):
         if name in ("copy", "astype"):
             keep = keep | frozenset([("val-of", interp.val_id(base))])
         out_ = Val(dim=dim, kind=base.kind if base.kind in ("arr", "idx", "float") else "arr", deps=deps, pdeps=pdeps, born=t, tags=keep)
+        if name == "sum" and not args and not kwargs and base.items is not None and 0 < len(base.items) <= 6 \
+                and all(i_ is not None and i_.sym is not None and i_.kind in ("float", "int") for i_ in base.items):
+            tot_ = base.items[0].sym
+            for i_ in base.items[1:]:
+                tot_ = tot_ + i_.sym
+            out_ = Val(dim=dim, kind="float", deps=deps, pdeps=pdeps, born=t, tags=keep | {("reduced", "sum")}, sym=tot_)   # the sum of a small vector, term by term
         rb_ = ring_of(base)
         if rb_ is not None:
             if name in ("copy", "astype", "round", "clip", "conj", "conjugate"):
